@@ -43,6 +43,10 @@ def run_history(arrivals, total, poll, ping_rate, ping_timeout, close_timeout, c
 
 
 def replay(obligation, extra):
+    from replay import trickle
+    r = trickle.check()
+    if r:
+        return r
     rnd = random.Random(int(os.environ.get('VERIF_SEED', '0') or 0))
     tried = 0
     T = ref.server_frame(1, b'x')
